@@ -806,34 +806,6 @@ def spec_check(ctx, budget):
     return out
 
 
-_spec_check_all = spec_check
-
-
-def spec_check(ctx, budget):  # noqa: F811
-    """failures explained by a listed finding WHOSE WITNESS STILL FAILS are counted (histogram `known_finding_hits`) but not
-    returned: the runner replays every witness itself (that is what prints the KNOWN-FINDING line), and it starts the deeper
-    failing-input search only when the first pass returned no spec failure -- so known failures must not occupy that slot"""
-    from .common import load_known
-
-    out = _spec_check_all(ctx, budget)
-    live = []
-    for k in load_known(PROP):
-        try:
-            if "witness" in k and check_witness(ctx, k["witness"]):
-                live.append(k)
-        except Exception:  # noqa: BLE001
-            pass
-    keep = []
-    for f in out["failures"]:
-        hit = next((k for k in live if f.get("kind") == "spec" and match_finding(f, k)), None)
-        if hit:
-            bump(out, "known_finding_hits", hit["id"])
-        else:
-            keep.append(f)
-    out["failures"] = keep
-    return out
-
-
 def _is_rev(seq):
     try:
         return bool(seq._seq.is_reversed)
